@@ -6,7 +6,7 @@ src=open(f'/verif/coq/Io/{f}.v').read()
 i=src.index('Lemma '+lem+' ')
 j=src.index('Qed.',i)
 shows=''.join(f'  {k}: idtac "GOAL {k}"; match goal with |- ?G => idtac G end.\n' for k in [])
-body=src[:j]+f'  all: (let n := numgoals in idtac "OPEN GOALS:" n).\n  Show.\n'+''.join(f'  Show {k}.\n' for k in range(2,n+1))+'Abort.\nEnd P.\n'
+body=src[:j]+f'  all: (let n := numgoals in idtac "OPEN GOALS:" n).\n  Show.\n'+''.join(f'  Show {k}.\n' for k in range(2,n+1))+'Abort.\n'
 open('/tmp/dbg_'+f+'.v','w').write(body)
 r=subprocess.run(f'coqc -Q /verif/coq MayV /tmp/dbg_{f}.v',shell=True,capture_output=True,text=True)
 out=r.stdout+r.stderr
